@@ -6,6 +6,7 @@ import (
 	"go/token"
 	"go/types"
 	"reflect"
+	"regexp"
 	"sort"
 	"strconv"
 	"strings"
@@ -33,6 +34,8 @@ func runC15(c *Ctx, r *Report) {
 	c15R7(c, r, "C15.R7")
 	c15R8(c, r, "C15.R8")
 	c15R9(c, r, "C15.R9")
+	c15R10(c, r, "C15.R10")
+	c15R11(c, r, "C15.R11")
 }
 
 // docOptions extracts the option keywords at block depth 1 of a "Syntax:" doc block.
@@ -686,6 +689,182 @@ func c15R9(c *Ctx, r *Report, rule string) {
 						r.check(good, rule, fname(fn), fmt.Sprintf("keyword %q on the stripped token", kw), c.ipos(bo), "compared after the prefix is removed", fmt.Sprintf("the token is compared with %q before its prefix is stripped: the prefixed form (e.g. \"!%s\") is not recognised as the keyword and is taken literally", kw, kw))
 					}
 				}
+			}
+		}
+	}
+}
+
+// c15R10: every option of a Caddyfile block guards against its own repetition: the flag tested by the case's
+// "duplicate option" error is the flag the case sets. A case that sets a neighbour's flag makes adaptation depend
+// on the order of options and lets its own repetition pass.
+func c15R10(c *Ctx, r *Report, rule string) {
+	r.rule(rule, "in every option switch of a Caddyfile unmarshaler, the has<Option> flags a case tests before reporting a duplicate are exactly the has<Option> flags it sets", 20)
+	for _, p := range c.Pkgs {
+		for _, f := range p.Syntax {
+			for _, d := range f.Decls {
+				fd, ok := d.(*ast.FuncDecl)
+				if !ok || fd.Body == nil || !strings.Contains(fd.Name.Name, "Caddyfile") {
+					continue
+				}
+				fnName := short(p.PkgPath) + "." + fd.Name.Name
+				if fd.Recv != nil && len(fd.Recv.List) > 0 {
+					fnName = short(p.PkgPath) + ".(" + exprName(fd.Recv.List[0].Type) + ")." + fd.Name.Name
+				}
+				ast.Inspect(fd.Body, func(n ast.Node) bool {
+					cc, ok := n.(*ast.CaseClause)
+					if !ok || len(cc.List) == 0 {
+						return true
+					}
+					label := ""
+					if bl, ok := cc.List[0].(*ast.BasicLit); ok {
+						label = strings.Trim(bl.Value, "\"")
+					}
+					if label == "" {
+						return true
+					}
+					tested, set := map[string]bool{}, map[string]bool{}
+					for _, st := range cc.Body {
+						ast.Inspect(st, func(m ast.Node) bool {
+							switch x := m.(type) {
+							case *ast.CaseClause:
+								return false // a nested option switch is judged on its own
+							case *ast.IfStmt:
+								// if hasX { return d.Errf("duplicate ...") }
+								dup := false
+								ast.Inspect(x.Body, func(q ast.Node) bool {
+									if bl, ok := q.(*ast.BasicLit); ok && strings.Contains(bl.Value, "duplicate") {
+										dup = true
+									}
+									return true
+								})
+								if dup {
+									ast.Inspect(x.Cond, func(q ast.Node) bool {
+										if id, ok := q.(*ast.Ident); ok && strings.HasPrefix(id.Name, "has") {
+											tested[id.Name] = true
+										}
+										return true
+									})
+								}
+							case *ast.AssignStmt:
+								for i, l := range x.Lhs {
+									id, ok := l.(*ast.Ident)
+									if !ok || !strings.HasPrefix(id.Name, "has") {
+										continue
+									}
+									var rhs ast.Expr
+									if len(x.Rhs) == len(x.Lhs) {
+										rhs = x.Rhs[i]
+									}
+									if rid, ok := rhs.(*ast.Ident); ok && rid.Name == "true" {
+										set[id.Name] = true
+									}
+								}
+							}
+							return true
+						})
+					}
+					if len(tested) == 0 || len(set) == 0 {
+						return true
+					}
+					same := len(tested) == len(set)
+					for k := range tested {
+						if !set[k] {
+							same = false
+						}
+					}
+					r.check(same, rule, fnName, "option "+label, c.pos(cc.Pos()), "tests and sets the same flag", fmt.Sprintf("option %q tests %v for duplicates but sets %v: a later, different option is refused as a duplicate (adaptation depends on option order) and a repetition of this one passes unnoticed", label, keysOf(tested), keysOf(set)))
+					return true
+				})
+			}
+		}
+	}
+}
+
+func keysOf(m map[string]bool) []string {
+	var out []string
+	for k := range m {
+		out = append(out, k)
+	}
+	sort.Strings(out)
+	return out
+}
+
+// c15R11: an optional trailing argument that has a field of its own (`protocols <min> [<max>]`) sets that field only
+// when it is present: the case that handles such an option assigns some field under a test of the argument count.
+func c15R11(c *Ctx, r *Report, rule string) {
+	r.rule(rule, "block options documented as `name <a> [<b>]` with distinct placeholders assign a field under a test on the presence of the optional argument (NextArg / CountRemainingArgs / len of the arguments)", 1)
+	optRe := regexp.MustCompile(`^\s*([a-z_0-9]+)((?:\s+<[a-zA-Z_|:]+>)+)\s+\[<([a-zA-Z_:]+)>\]\s*$`)
+	for _, p := range c.Pkgs {
+		for _, f := range p.Syntax {
+			for _, d := range f.Decls {
+				fd, ok := d.(*ast.FuncDecl)
+				if !ok || fd.Body == nil || fd.Doc == nil || !strings.Contains(fd.Name.Name, "Caddyfile") {
+					continue
+				}
+				want := map[string]string{}
+				for _, line := range strings.Split(fd.Doc.Text(), "\n") {
+					if m := optRe.FindStringSubmatch(line); m != nil {
+						opt := m[3]
+						if strings.Contains(m[2], "<"+opt+">") {
+							continue // repetition of the same placeholder
+						}
+						want[m[1]] = opt
+					}
+				}
+				if len(want) == 0 {
+					continue
+				}
+				fnName := short(p.PkgPath) + "." + fd.Name.Name
+				ast.Inspect(fd.Body, func(n ast.Node) bool {
+					cc, ok := n.(*ast.CaseClause)
+					if !ok || len(cc.List) == 0 {
+						return true
+					}
+					bl, ok := cc.List[0].(*ast.BasicLit)
+					if !ok {
+						return true
+					}
+					label := strings.Trim(bl.Value, "\"")
+					opt, has := want[label]
+					if !has {
+						return true
+					}
+					guarded := false
+					for _, st := range cc.Body {
+						ast.Inspect(st, func(m ast.Node) bool {
+							ifs, ok := m.(*ast.IfStmt)
+							if !ok {
+								return true
+							}
+							countTest := false
+							ast.Inspect(ifs.Cond, func(q ast.Node) bool {
+								if call, ok := q.(*ast.CallExpr); ok {
+									switch nm := exprName(call.Fun); {
+									case strings.HasSuffix(nm, ".NextArg"), strings.HasSuffix(nm, ".CountRemainingArgs"), nm == "len":
+										countTest = true
+									}
+								}
+								return true
+							})
+							if !countTest {
+								return true
+							}
+							ast.Inspect(ifs.Body, func(q ast.Node) bool {
+								if as, ok := q.(*ast.AssignStmt); ok {
+									for _, l := range as.Lhs {
+										if _, isSel := l.(*ast.SelectorExpr); isSel {
+											guarded = true
+										}
+									}
+								}
+								return true
+							})
+							return true
+						})
+					}
+					r.check(guarded, rule, fnName, "option "+label+" [<"+opt+">]", c.pos(cc.Pos()), "the optional argument's field is set only when the argument is there", fmt.Sprintf("option %q is documented with an optional <%s>, but no field is assigned under a test for its presence: with the argument left out the field gets a value anyway and the adapted JSON says more than the Caddyfile", label, opt))
+					return true
+				})
 			}
 		}
 	}
